@@ -47,8 +47,9 @@ CONSTANTS
   CombineChecksRes,  \* FALSE: combined_layer as it is (res_range of the members is dropped)
   BestSrsFromList,   \* FALSE: preferred_src as it is (returns the SRS object of the rule, not the supported one)
   CombineChecksCodes,\* FALSE: _is_compatible as it is (supported_srs lists compared by SRS equality, not by code)
-  MapCases,          \* <<sequence of layer names, query>> explored by the model checker (WMS GetMap requests)
-  CallCases          \* <<source id, query>> explored by the model checker (get_map of one source, e.g. from a cache)
+  MapCases,          \* sequence of sets of <<sequence of layer names, query>> explored by the model checker (WMS GetMap)
+  CallCases          \* sequence of sets of <<source id, query>> explored by the model checker (get_map of one source,
+                     \* e.g. called by a tile manager)
 
 VARIABLES
   pc,      \* where the code is
@@ -332,8 +333,9 @@ Done ==
   /\ pc' = "done"
   /\ UNCHANGED <<q, todo, cur, sent, outs, case>>
 
-DoMapRequest == pc = "idle" /\ \E mc \in MapCases : MapRequest(mc[1], mc[2])
-DoCall       == pc = "idle" /\ \E cc \in CallCases : Call(cc[1], cc[2])
+\* (the cases are given as sequences of sets)
+DoMapRequest == pc = "idle" /\ \E i \in DOMAIN MapCases : \E mc \in MapCases[i] : MapRequest(mc[1], mc[2])
+DoCall       == pc = "idle" /\ \E i \in DOMAIN CallCases : \E cc \in CallCases[i] : Call(cc[1], cc[2])
 
 Next == DoMapRequest \/ DoCall \/ FilterLayers \/ Combine \/ StartUnit \/ TileCheck \/ ResGate \/ CovGate
         \/ Negotiate \/ Extent \/ TileGet \/ Done
